@@ -1,16 +1,31 @@
 (* Crc.v — executable CRC-32/IEEE (reflected, poly 0xEDB88320), as computed by crc32fast.
-   Used only to run the model; every theorem is stated for an arbitrary checksum function. *)
-From MRL Require Import Bytes.
+   Used only to run the model; every theorem is stated for an arbitrary checksum function.
+   Its agreement with crc32fast is checked by the byte-exact comparison of every write. *)
+From MRL Require Import Bytes CrcTable.
 
+(* bitwise reference *)
 Definition crc_step (c : N) : N :=
   if N.odd c then N.lxor (N.shiftr c 1) 3988292384 else N.shiftr c 1.
-
-Definition crc_byte (c : N) (b : byte) : N :=
+Definition crc_byte_bitwise (c : N) (b : byte) : N :=
   crc_step (crc_step (crc_step (crc_step (crc_step (crc_step (crc_step (crc_step
     (N.lxor c (b2n b))))))))).
+
+Lemma crc_table_ok : forall b, crc_table b = crc_byte_bitwise 0 b.
+Proof. destruct b; vm_compute; reflexivity. Qed.
+
+(* table-driven step: table[(c xor b) land 255] xor (c >> 8) *)
+Definition byte_of_small (n : N) : byte :=
+  match Byte.of_N n with Some b => b | None => x00 end.
+Definition crc_byte (c : N) (b : byte) : N :=
+  N.lxor (crc_table (byte_of_small (N.land (N.lxor c (b2n b)) 255))) (N.shiftr c 8).
 
 Definition crc32_update (c : N) (bs : bytes) : N := fold_left crc_byte bs c.
 
 (* crc32(data, frame_type): hash.update(&[frame_type]); hash.update(data); finalize() *)
 Definition crc32 (t : byte) (p : bytes) : N :=
   N.land (N.lxor (crc32_update 4294967295 (t :: p)) 4294967295) 4294967295.
+
+(* the standard check value, crc32("123456789") = 0xCBF43926 *)
+Example crc32_check :
+  crc32 "1"%byte ["2"; "3"; "4"; "5"; "6"; "7"; "8"; "9"]%byte = 3421780262.
+Proof. vm_compute. reflexivity. Qed.
